@@ -87,6 +87,32 @@ def mid_equation(b, rel, prefix, n, tier, full_range=False):
               functions=["rusty_basic::interpreter::built_ins::mid_fn::do_mid"])
 
 
+def mid_long(b, rel, prefix, n, tier, core=True):
+    """MID$ on a long text of fixed content: lengths and positions far beyond one byte's range."""
+    b.add(rel, "%s_mid_long%d" % (prefix, n), """
+        let bytes: [u8; %(n)d] = [b'x'; %(n)d];
+        let s: &str = unsafe { std::str::from_utf8_unchecked(&bytes) };
+        let start: usize = kani::any();
+        kani::assume(start >= 1 && start <= 32767);
+        let has_count: bool = kani::any();
+        let count: usize = kani::any();
+        kani::assume(count <= 32767);
+        let r = match do_mid(s, start, if has_count { Some(count) } else { None }) {
+            Ok(r) => r,
+            Err(e) => { std::mem::forget(e); assert!(false); return; }
+        };
+        let lo = if start - 1 < %(n)d { start - 1 } else { %(n)d };
+        let hi = if has_count && start - 1 + count < %(n)d { start - 1 + count } else { %(n)d };
+        let want_len = if hi > lo { hi - lo } else { 0 };
+        assert!(r.len() == want_len);          // in particular MID$(s, a) is the whole rest, however long
+        let k: usize = kani::any();
+        if k < want_len { assert!(r.as_bytes()[k] == b'x'); }
+        std::mem::forget(r);
+        """ % {"n": n}, unwind=4, tier=tier, core=core, cost=100,
+          bounds="a text of %d characters (fixed content); start 1..32767, count absent or 0..32767" % n,
+          functions=["rusty_basic::interpreter::built_ins::mid_fn::do_mid"])
+
+
 def instr_equation(b, rel, prefix, h, m, tier):
     """INSTR(n, s, t) for non-empty t = least position >= n where t occurs in s, else 0."""
     b.add(rel, "%s_instr_hay%d_needle%d" % (prefix, h, m), """
